@@ -27,20 +27,22 @@ if r2:
 sec = sec.replace("@@ROUND2@@", r2txt)
 
 
-def rows3():
+def rows_round(prefix):
     out = []
-    for d in sorted(glob.glob(os.path.join(V, "seeded", "R3-*", "meta.json"))):
+    for d in sorted(glob.glob(os.path.join(V, "seeded", prefix + "-*", "meta.json"))):
         m = json.load(open(d))
         f = lambda xs: ", ".join(xs) or "— (not detected)"  # noqa
-        t = re.sub(r'^[AB]\s*[-—:]+\s*', '', m["change"]).strip()
+        t = re.sub(r'^(C\d\d\s*/\s*)?(change\s+)?[ABab]\s*[-—:]+\s*', '', m["change"]).strip()
         out.append(f"| {m['id']} | {t[:110]} | {', '.join(os.path.basename(x) for x in m['files_touched'])} | "
-                   f"{f(m.get('detected_by_first_run', []))} | {f(m['detected_by'])} |")
+                   f"{f(m.get('detected_by_first_run', []))} | {f(m.get('detected_by', []))} |")
     return "\n".join(out)
 
 
-r3 = rows3()
-r3txt = open(os.path.join(V, "tools", "design_round3.template.md")).read().replace("@@TABLE3@@", r3) if r3 else ""
-sec = sec.replace("@@ROUND3@@", r3txt)
+for k in (3, 4, 5):
+    rk = rows_round(f"R{k}")
+    tp = os.path.join(V, "tools", f"design_round{k}.template.md")
+    txt = open(tp).read().replace(f"@@TABLE{k}@@", rk) if rk and os.path.exists(tp) else ""
+    sec = sec.replace(f"@@ROUND{k}@@", txt)
 s16 = os.path.join(V, "tools", "design_section_16.template.md")
 if os.path.exists(s16):
     sec = sec.rstrip() + "\n\n" + open(s16).read()
